@@ -92,7 +92,31 @@ def validate(chk, law, recs, label, switch="none"):
     return r.printed("BAD")
 
 
-def run_law(chk, law, measure, *, npts_quick, npts_thorough, switches=(), procs=16, post=None):
+def remeasure_under_switch(chk, law, measure, cells, switch, npts):
+    """Vacuity guard for derivations that steer the MEASUREMENT (aux): plan again with the design
+    switch (TLC must refute the lemmas), measure the cells whose derived attributes changed, and
+    require LawsTrace to refute those measurements."""
+    pf = chk.scratch / f"plan-{law}-{switch}.json"
+    chk.tlc("LawsPlan", "LawsPlan.cfg", workers=1, label=f"design switch {switch}: lemmas must fail",
+            env={"LAW": law, "PLAN_FILE": str(pf), "SWITCH": switch}, expect_violation="Lemmas")
+    clean = {json.dumps(c["cell"], sort_keys=True): c for c in cells}
+    switched = json.loads(pf.read_text())["cells"]
+    changed = [c for c in switched if c.get("aux") != clean[json.dumps(c["cell"], sort_keys=True)].get("aux")]
+    if not changed:
+        raise MachineryError(f"{law}: switch {switch} changes no derived attribute")
+    outs = measure_all(chk, law, changed, measure, npts)
+    recs = [to_record(law, o) for o in outs]
+    r = chk.tlc("LawsTrace", "LawsTrace.cfg", trace=recs, workers=1,
+                label=f"design switch {switch}: {len(recs)} re-measured cells (must refute)",
+                env={"LAW": law, "SWITCH": switch})
+    bad = [t for t in r.printed("BAD") if t[1] > 0 and t[2].startswith(law + ":") and "cell" not in t[2]]
+    if not bad:
+        raise MachineryError(f"{law}: vacuity guard: measurements under switch {switch} are not refuted")
+    chk.note(f"switch_{switch}", f"lemmas refuted by TLC; {len(bad)} of {len(recs)} re-measured cells refuted")
+
+
+def run_law(chk, law, measure, *, npts_quick, npts_thorough, switches=(), procs=16, post=None,
+            remeasure_switches=()):
     """Full pipeline for one law.  `switches`: design switches of Laws.tla under which the
     clean measurements MUST be refuted (vacuity guard)."""
     npts = npts_thorough if chk.thorough() else npts_quick
@@ -195,6 +219,8 @@ def run_law(chk, law, measure, *, npts_quick, npts_thorough, switches=(), procs=
             raise MachineryError(f"{law}: vacuity guard: switch {s} refutes nothing")
         sw[s] = len(new)
     chk.note("design_switches_refuted_cells", sw)
+    for s in remeasure_switches:
+        remeasure_under_switch(chk, law, measure, cells, s, npts)
     if post:
         post(chk, outs)
     return outs
